@@ -506,6 +506,60 @@ pub unsafe extern "C" fn rename(from: *const c_char, to: *const c_char) -> c_int
     r
 }
 
+// ---------------------------------------------------------------------------------------
+// accept(2): the next n calls fail with the given errno (EMFILE, ECONNABORTED, ...) and leave the pending
+// connection in the backlog, as the kernel does; a callback tells the driver about each injected failure.
+
+static ACCEPT_FAILS: std::sync::atomic::AtomicU32 = std::sync::atomic::AtomicU32::new(0);
+static ACCEPT_ERRNO: std::sync::atomic::AtomicI32 = std::sync::atomic::AtomicI32::new(0);
+static ACCEPT_HOOK: Mutex<Option<fn()>> = Mutex::new(None);
+
+pub fn fail_next_accepts(n: u32, errno: i32, hook: Option<fn()>) {
+    *ACCEPT_HOOK.lock().unwrap_or_else(|e| e.into_inner()) = hook;
+    ACCEPT_ERRNO.store(errno, std::sync::atomic::Ordering::SeqCst);
+    ACCEPT_FAILS.store(n, std::sync::atomic::Ordering::SeqCst);
+}
+
+pub fn accept_failures_left() -> u32 {
+    ACCEPT_FAILS.load(std::sync::atomic::Ordering::SeqCst)
+}
+
+fn inject_accept_failure() -> bool {
+    use std::sync::atomic::Ordering::SeqCst;
+    loop {
+        let n = ACCEPT_FAILS.load(SeqCst);
+        if n == 0 {
+            return false;
+        }
+        if ACCEPT_FAILS.compare_exchange(n, n - 1, SeqCst, SeqCst).is_ok() {
+            let h = *ACCEPT_HOOK.lock().unwrap_or_else(|e| e.into_inner());
+            if let Some(h) = h {
+                h();
+            }
+            unsafe { set_errno(ACCEPT_ERRNO.load(SeqCst)) };
+            return true;
+        }
+    }
+}
+
+#[no_mangle]
+pub unsafe extern "C" fn accept4(fd: c_int, addr: *mut libc::sockaddr, len: *mut libc::socklen_t, flags: c_int) -> c_int {
+    let f = real!("accept4", unsafe extern "C" fn(c_int, *mut libc::sockaddr, *mut libc::socklen_t, c_int) -> c_int);
+    if inject_accept_failure() {
+        return -1;
+    }
+    f(fd, addr, len, flags)
+}
+
+#[no_mangle]
+pub unsafe extern "C" fn accept(fd: c_int, addr: *mut libc::sockaddr, len: *mut libc::socklen_t) -> c_int {
+    let f = real!("accept", unsafe extern "C" fn(c_int, *mut libc::sockaddr, *mut libc::socklen_t) -> c_int);
+    if inject_accept_failure() {
+        return -1;
+    }
+    f(fd, addr, len)
+}
+
 /// Must be referenced from every binary so that this object is linked in.
 pub fn init() {
     with(|_| ());
